@@ -518,6 +518,25 @@ func (v *VC) evCall(x SCall, env *SpecEnv) TV {
 		if !ok {
 			specPanic("typeis needs a string type name")
 		}
+		if env.fn != nil {
+			if sig := env.fn.Signature; sig != nil {
+				for k := 0; k < sig.TypeParams().Len(); k++ {
+					if tp := sig.TypeParams().At(k); tp.Obj().Name() == s.V {
+						return TV{T: v.typeParamTest(tp, a.T), Typ: tBool}
+					}
+				}
+			}
+			if tps := env.fn.TypeParams(); tps != nil {
+				for k := 0; k < tps.Len(); k++ {
+					if tp := tps.At(k); tp.Obj().Name() == s.V {
+						return TV{T: v.typeParamTest(tp, a.T), Typ: tBool}
+					}
+				}
+			}
+		}
+		if strings.HasPrefix(s.V, "*") {
+			return TV{T: fmt.Sprintf("(and ((_ is iface-p) %s) (= (ip-type %s) %d))", a.T, a.T, v.typeIDByName(s.V)), Typ: tBool}
+		}
 		return TV{T: fmt.Sprintf("(= (iface-tid %s) %d)", a.T, v.typeIDByName(s.V)), Typ: tBool}
 	case "isnil":
 		a := v.ev(x.Args[0], env)
